@@ -80,6 +80,13 @@ def classify(call: ast.Call, callees: list[Callee]) -> str | None:
             if name == "os.fdopen":
                 mode = open_mode(call, 1)
                 return READ if (mode is not None and not set(mode) & set("wax+")) else WRITE_OPEN
+            if name == "os.open" and len(call.args) >= 2:
+                # os.open(path, flags): read-only when the flags are an |-combination of O_RDONLY / O_DIRECTORY / O_CLOEXEC /
+                # O_NOFOLLOW / O_NONBLOCK / O_PATH (also through getattr(os, "O_...", 0)) - nothing that writes, creates or truncates
+                flags = {x.attr for x in ast.walk(call.args[1]) if isinstance(x, ast.Attribute) and x.attr.startswith("O_")} | {x.value for x in ast.walk(call.args[1]) if isinstance(x, ast.Constant) and isinstance(x.value, str) and x.value.startswith("O_")}
+                other = [x for x in ast.walk(call.args[1]) if isinstance(x, ast.Name) and x.id not in ("os", "getattr")]
+                if flags and not other and flags <= {"O_RDONLY", "O_DIRECTORY", "O_CLOEXEC", "O_NOFOLLOW", "O_NONBLOCK", "O_PATH", "O_NOCTTY"} and "O_RDONLY" in flags:
+                    return READ
             if name in EXT_TABLE:
                 return EXT_TABLE[name]
             if name.startswith("pathlib.Path."):
